@@ -21,6 +21,7 @@ import (
 
 	"github.com/awslabs/ar-go-tools/analysis/config"
 	"github.com/awslabs/ar-go-tools/internal/formatutil"
+	"github.com/awslabs/ar-go-tools/internal/verifhook"
 	"golang.org/x/tools/go/ssa"
 	"golang.org/x/tools/go/ssa/ssautil"
 )
@@ -210,6 +211,7 @@ func AnalyzeFunction(fn *ssa.Function, l *config.LogGroup) Results {
 	// but this limit ensures that no matter what order we do it in, we'll converge if it is bounded.
 	var anyRepeated = false
 	for {
+		verifhook.At("defers.AnalyzeFunction.step")
 		var iterationChanged = false
 		for _, b := range blocks {
 			i := b.Index
